@@ -293,7 +293,7 @@ def tidal_potential(
         # n
         (-e) * cos4_p_sin4 + (5. * e) * cos2_sin2,
         # 2n
-        (-2. + 11.) * cos2_sin2,
+        (-2.) * cos2_sin2,
         # 3n
         (-7. * e) * cos2_sin2,
         # 2o + n
